@@ -521,8 +521,9 @@ def gen_directed_pairs():
             # lexer documents (`-1`, `-1.`, `-2.5`, `-1e3`) is a VALUE in the detached form too (seeded change seed2/C08-3)
             c["args"].append({"id": b"scale", "short": "s", "long": b"scale", "action": "set", "flags": {"negnum"}})
             for num in (b"-1", b"-1.", b"-10.", b"-2.5", b"-1e3", b"-0", b"-3.e2"):
-                pairs += [([b"--scale", num], [b"--scale=" + num]), ([b"-s", num], [b"-s" + num]),
-                          ([b"-s", num, b"x"], [b"-s=" + num, b"x"])]
+                # A is the attached spelling (never consults the lexer's number test), B the detached one
+                pairs += [([b"--scale=" + num], [b"--scale", num]), ([b"-s" + num], [b"-s", num]),
+                          ([b"-s=" + num, b"x"], [b"-s", num, b"x"])]
         for a, b in pairs:
             if posflag == "hyphen" and any(t in (b"-Oval", b"-qOval") for t in a):
                 continue        # under a hyphen-value positional a cluster with an undefined character (`-Oval`) is a VALUE
